@@ -374,6 +374,19 @@ func getPath(v Val, path []int) Val {
 				return Top{"array index out of range"}
 			}
 			v = x.E[i]
+		case *Sym:
+			var ft types.Type
+			if x.T != nil {
+				switch u := x.T.Underlying().(type) {
+				case *types.Struct:
+					if i >= 0 && i < u.NumFields() {
+						ft = u.Field(i).Type()
+					}
+				case *types.Array:
+					ft = u.Elem()
+				}
+			}
+			v = &Sym{Op: FieldOp(x.T, i), Args: []Val{x}, T: ft}
 		default:
 			return Top{fmt.Sprintf("path through %T", v)}
 		}
@@ -421,4 +434,18 @@ func (s *Slice) Elems() []Val {
 func NewSlice(elem types.Type, elems []Val) *Slice {
 	e := append([]Val(nil), elems...)
 	return &Slice{Cell: &Cell{V: &Array{T: elem, E: e}, Name: "slice"}, Off: 0, Len: len(e), Cap: len(e), T: elem}
+}
+
+// FieldOp names the selection of field i of a struct (or pointer to struct) type.
+func FieldOp(t types.Type, i int) string {
+	if t != nil {
+		u := t.Underlying()
+		if p, ok := u.(*types.Pointer); ok {
+			u = p.Elem().Underlying()
+		}
+		if st, ok := u.(*types.Struct); ok && i >= 0 && i < st.NumFields() {
+			return "." + st.Field(i).Name()
+		}
+	}
+	return fmt.Sprintf("field%d", i)
 }
